@@ -174,6 +174,15 @@ def _kani_unit(unit, tier, seed, pid=None):
             out_all, meta, out, err = R.run_kani(unit["name"], crate_dir, [h["name"] for h in hl], timeout=unit.get("timeout", 3000), harness_timeout=unit.get("harness_timeout", 900),
                                                  jobs=unit.get("jobs", 8), extra=list(extra) + unit.get("kani_args", []))
             res.meta = meta
+            # resource pressure is not a verdict: a harness that ran out of memory or time while running next to others gets one run of its own
+            starved = [k for k, r in out_all.items() if r["status"] == "undecided" and (r.get("timed_out") or "out of memory" in r.get("raw", ""))]
+            if starved and len(out_all) > 1:
+                again, meta2, out2, err2 = R.run_kani(unit["name"], crate_dir, starved, timeout=unit.get("timeout", 3000), harness_timeout=unit.get("harness_timeout", 900),
+                                                      jobs=2, extra=list(extra) + unit.get("kani_args", []))
+                for k, r in again.items():
+                    out_all[k] = r
+                counter["driver.rerun_starved_harness"] = counter.get("driver.rerun_starved_harness", 0) + len(starved)
+                res.counter = dict(counter)
             if not out_all:
                 errs = "\n".join(re.findall(r"^error[^\n]*\n(?:[^\n]*\n){0,7}", out + "\n" + err, re.M)[:6])
                 res.undecided.append("%s: kani produced no harness results (compile error?):\n%s\n%s" % (unit["name"], errs[:3000], (meta.get("error") or "")[-600:]))
